@@ -52,7 +52,7 @@ fn c18ref() -> i32 {
     for c in c18::configs18() {
         match c18::encode18(&c) {
             Ok(b) => {
-                m.insert(c.name.clone(), json!(core::hex(&b)));
+                m.insert(c.name.clone(), json!([b.len(), format!("{:016x}", core::fnv64(&b))]));
             }
             Err(e) => {
                 eprintln!("MACHINERY: serial reference for {} fails: {e}", c.name);
